@@ -81,6 +81,7 @@ func rootLocal(f *eng.Fn, e ast.Expr) *types.Var {
 
 func runC01(p *eng.Prog, r *eng.Report, tier string) {
 	c := &cx{p, r, tier}
+	r18EndElementEndsTheList(c, "C01.29")
 	r17NegotiatorStateOnlyFromTheNegotiator(c, "C01.27")
 	r17ParsedDataAlwaysRecorded(c, "C01.28")
 	c.r.Floor("C01.26", "reads of the prerequisite masks", prerequisitesOnlyTested(c, "C01.26"), 6)
